@@ -28,9 +28,11 @@ import (
 //	{op: "shapes",   syn, level, shapes: [{syn, card, kind, cont, packed, lazy, dflt}]}   one message, one field per shape
 //	{op: "msgnames", level, fields, oname, nested, enums}                                 a GoNamesMsg declaration
 //	{op: "schema",   seed, level}                                                         RandSchema(seed)
+//	{op: "services", level, methods: [{in, out, cs, ss, svc}]}                            two services (GenService.tla)
 //	{op: "batch",    items: [item (+ exp)]}  ->  {results: [out (+ diff)]}                one build for many items
 //
 // out of an item: generated, gofmt, compiles, descriptor, wire, json, reflect (booleans), presence / packed (shapes),
+// methods (services: per method {in, out, cs, ss} as the REGISTERED descriptor reports them),
 // messages, values (how much was compared), errors (first compiler / generator messages), dups (identifiers the
 // compiler reports as declared twice, "M.X" or "pkg.X").
 func init() {
@@ -74,6 +76,7 @@ type job struct {
 	fd     *descriptorpb.FileDescriptorProto
 	out    core.Case
 	fields []string // shapes: locators of the fields, in shape order
+	meths  []string // services: full names of the methods, in item order
 	ok     bool     // still in the pipeline
 }
 
@@ -120,6 +123,9 @@ func runBatch(items []core.Case) []core.Case {
 			j.fd.Package = proto.String("verif." + j.id)
 		case "schema":
 			j.fd = RandSchema(uint64(core.Int(c["seed"])), "_"+j.id)
+		case "services":
+			j.fd, j.meths = servicesFile(c, j.id)
+			j.out["methods"] = []any{}
 		default:
 			panic("harness: unknown gencomp op " + core.Str(c["op"]))
 		}
@@ -239,7 +245,7 @@ func runBatch(items []core.Case) []core.Case {
 				values = 40
 			}
 			manifest = append(manifest, map[string]any{"id": j.id, "path": j.fd.GetName(), "expect": filepath.Join(root, j.id+".binpb"),
-				"fields": j.fields, "values": values, "seed": 1 + seedOf(j.c)})
+				"fields": j.fields, "methods": j.meths, "values": values, "seed": 1 + seedOf(j.c)})
 		}
 		imp.WriteString(")\n")
 		must(os.WriteFile(filepath.Join(dir, "imports.go"), []byte(imp.String()), 0o644))
@@ -276,6 +282,9 @@ func runBatch(items []core.Case) []core.Case {
 			}
 			if core.Str(j.c["op"]) == "shapes" {
 				j.out["presence"], j.out["packed"] = r["presence"], r["packed"]
+			}
+			if core.Str(j.c["op"]) == "services" {
+				j.out["methods"] = r["methods"]
 			}
 			for _, n := range core.List(r["notes"]) {
 				j.note(core.Str(n))
@@ -573,6 +582,51 @@ func shapesFile(c core.Case, id string) (*descriptorpb.FileDescriptorProto, []st
 			f.OneofIndex = proto.Int32(int32(len(s.OneofDecl)))
 			s.OneofDecl = append(s.OneofDecl, &descriptorpb.OneofDescriptorProto{Name: proto.String("_" + f.GetName())})
 		}
+	}
+	return fd, locs
+}
+
+// ---- services: the file of spec/gen/GenService.tla (MC_GenService!FileOf) with the listed methods
+//
+//	message Req { optional Inner inner = 1; message Inner { optional int32 a = 1; } }
+//	message Resp { optional int32 a = 1; extensions 100 to 199; }
+//	extend Resp { optional Req.Inner x = 100; optional int32 y = 101; }
+//	service S1 { rpc M<i>(<in>) returns (<out>); ... }  service S2 { ... }      (i = position in the item, from 1)
+func servicesFile(c core.Case, id string) (*descriptorpb.FileDescriptorProto, []string) {
+	pkg := "verif." + id
+	opt := descriptorpb.FieldDescriptorProto_LABEL_OPTIONAL.Enum()
+	i32 := descriptorpb.FieldDescriptorProto_TYPE_INT32.Enum()
+	msg := descriptorpb.FieldDescriptorProto_TYPE_MESSAGE.Enum()
+	typeName := map[string]string{"Req": "." + pkg + ".Req", "Resp": "." + pkg + ".Resp", "Req.Inner": "." + pkg + ".Req.Inner",
+		"Empty": ".google.protobuf.Empty"}
+	fd := &descriptorpb.FileDescriptorProto{Name: proto.String("verif/" + id + ".proto"), Package: proto.String(pkg), Syntax: proto.String("proto2"),
+		Options: &descriptorpb.FileOptions{}, Dependency: []string{"google/protobuf/empty.proto"},
+		MessageType: []*descriptorpb.DescriptorProto{
+			{Name: proto.String("Req"),
+				Field:      []*descriptorpb.FieldDescriptorProto{{Name: proto.String("inner"), Number: proto.Int32(1), Label: opt, Type: msg, TypeName: proto.String(typeName["Req.Inner"])}},
+				NestedType: []*descriptorpb.DescriptorProto{{Name: proto.String("Inner"), Field: []*descriptorpb.FieldDescriptorProto{{Name: proto.String("a"), Number: proto.Int32(1), Label: opt, Type: i32}}}}},
+			{Name: proto.String("Resp"), Field: []*descriptorpb.FieldDescriptorProto{{Name: proto.String("a"), Number: proto.Int32(1), Label: opt, Type: i32}},
+				ExtensionRange: []*descriptorpb.DescriptorProto_ExtensionRange{{Start: proto.Int32(100), End: proto.Int32(200)}}}},
+		Extension: []*descriptorpb.FieldDescriptorProto{
+			{Name: proto.String("x"), Number: proto.Int32(100), Label: opt, Type: msg, TypeName: proto.String(typeName["Req.Inner"]), Extendee: proto.String(typeName["Resp"])},
+			{Name: proto.String("y"), Number: proto.Int32(101), Label: opt, Type: i32, Extendee: proto.String(typeName["Resp"])}},
+		Service: []*descriptorpb.ServiceDescriptorProto{{Name: proto.String("S1")}, {Name: proto.String("S2")}}}
+	var locs []string
+	for i, m := range core.List(c["methods"]) {
+		mm := core.Map(m)
+		in, out, svc := typeName[core.Str(mm["in"])], typeName[core.Str(mm["out"])], core.Int(mm["svc"])
+		if in == "" || out == "" || svc < 1 || svc > 2 {
+			panic(fmt.Sprintf("harness: bad method %v", mm))
+		}
+		md := &descriptorpb.MethodDescriptorProto{Name: proto.String(fmt.Sprintf("M%d", i+1)), InputType: proto.String(in), OutputType: proto.String(out)}
+		if core.Bool(mm["cs"]) {
+			md.ClientStreaming = proto.Bool(true)
+		}
+		if core.Bool(mm["ss"]) {
+			md.ServerStreaming = proto.Bool(true)
+		}
+		fd.Service[svc-1].Method = append(fd.Service[svc-1].Method, md)
+		locs = append(locs, fmt.Sprintf("%s.S%d.M%d", pkg, svc, i+1))
 	}
 	return fd, locs
 }
